@@ -695,3 +695,8 @@ def run(chk):
     if not ONLY or "0" in ONLY:
         from . import entrypoints
         chk.guard("R11.10", "gated-constructors", entrypoints.check_fn_constructors, chk, F, "R11.10")
+        # the PSBT entry points taking an input index refuse an index beyond the input list before anything indexes with
+        # it (rule shared with C14)
+        from ..report import RuleAlias
+        chk.guard("R11.11", "psbt-index", c14.check_entry_points, RuleAlias(chk, {"R14.5": "R11.11"}, "an out-of-range "
+                  "input index is an error, not a panic"), F)
